@@ -1,9 +1,120 @@
 import UvModel.DriverUtil
-/-! line-protocol driver modes for C11 (stub: no modes yet) -/
+import UvModel.FsBuf
+/-! line-protocol driver for C11 (a): mode `fsbuf`; the other side is harness/c11_fsbuf.c -/
 namespace Drivers.C11
-open UvModel.DriverUtil
+open UvModel.DriverUtil UvModel.FsBuf
+
+def kv (key : String) (ws : List String) : Option String :=
+  ws.findSome? fun w =>
+    match w.splitOn "=" with
+    | [k, v] => if k = key then some v else none
+    | _ => none
+
+/-- `3,0*1024,5` → lengths -/
+def parseLens (s : String) : Option (List Nat) :=
+  if s = "-" then some [] else
+  (s.splitOn ",").foldr (fun tok acc => do
+    let acc ← acc
+    match tok.splitOn "*" with
+    | [v] => let v ← v.toNat?; pure (v :: acc)
+    | [v, k] => let v ← v.toNat?; let k ← k.toNat?; pure (List.replicate k v ++ acc)
+    | _ => none) (some [])
+
+def parseOutcome (tok : String) : Option Outcome :=
+  if tok = "EINTR" then some (.fail EINTR)
+  else if tok.startsWith "E" then (tok.drop 1).toString.toNat?.map .fail
+  else tok.toNat?.map .ok
+
+def parseOutcomes (s : String) : Option (List Outcome) :=
+  if s = "-" then some [] else (s.splitOn ",").mapM parseOutcome
+
+/-- run-length encoding `v*k` of consecutive equal values -/
+def rle (l : List Nat) : String :=
+  let rec go : List Nat → List (Nat × Nat) → List (Nat × Nat)
+    | [], acc => acc.reverse
+    | x :: xs, (v, k) :: acc => if x = v then go xs ((v, k + 1) :: acc) else go xs ((x, 1) :: (v, k) :: acc)
+    | x :: xs, [] => go xs [(x, 1)]
+  let parts := (go l []).map fun (v, k) => if k = 1 then s!"{v}" else s!"{v}*{k}"
+  if parts.isEmpty then "-" else ",".intercalate parts
+
+/-- byte ids → `a-b,c-d` (half-open ranges of consecutive ids) -/
+def ranges (l : List Nat) : String :=
+  let rec go : List Nat → List (Nat × Nat) → List (Nat × Nat)
+    | [], acc => acc.reverse
+    | x :: xs, (a, b) :: acc => if x = b then go xs ((a, b + 1) :: acc) else go xs ((x, x + 1) :: (a, b) :: acc)
+    | x :: xs, [] => go xs [(x, x + 1)]
+  let parts := (go l []).map fun (a, b) => s!"{a}-{b}"
+  if parts.isEmpty then "-" else ",".intercalate parts
+
+/-- buffers holding consecutive byte ids starting at `start` -/
+def mkBufs : List Nat → Nat → List (List Nat)
+  | [], _ => []
+  | l :: ls, start => List.range' start l :: mkBufs ls (start + l)
+
+def sysName : Sys → String
+  | .write => "write" | .writev => "writev" | .pwrite => "pwrite" | .pwritev => "pwritev"
+  | .read => "read" | .readv => "readv" | .pread => "pread" | .preadv => "preadv"
+
+def showOutcome : Outcome → String
+  | .ok n => s!"{n}"
+  | .fail e => s!"E{e}"
+
+def hasOff : Sys → Bool
+  | .pwrite | .pwritev | .pread | .preadv => true
+  | _ => false
+
+def showCall (c : Call Nat) (withData : Bool) : String :=
+  let off := if hasOff c.sys then s!"{c.off}" else "cur"
+  let base := s!"call {sysName c.sys} off={off} iov={rle (c.iov.map List.length)} ret={showOutcome c.out}"
+  if withData then base ++ s!" data={ranges c.written}" else base
+
+def marker : Nat := 1000000000
+
+def step (iovmax : Nat) : List String → Nat × List String
+  | [] => (iovmax, [])
+  | ["iovmax", n] => match n.toNat? with
+    | some n => (n, [s!"iovmax {n}"])
+    | none => (iovmax, ["bad-op"])
+  | "write_all" :: args =>
+    match (kv "off" args).bind String.toInt?, (kv "bufs" args).bind parseLens, (kv "outcomes" args).bind parseOutcomes with
+    | some off, some lens, some os =>
+      let r := writeAll iovmax os off (mkBufs lens 0)
+      (iovmax, r.calls.map (showCall · true) ++ [s!"result {r.result} off={r.off}"])
+    | _, _, _ => (iovmax, ["bad-op"])
+  | "read" :: args =>
+    match (kv "off" args).bind String.toInt?, (kv "bufs" args).bind parseLens, (kv "outcome" args).bind parseOutcome with
+    | some off, some lens, some o =>
+      let bufs := lens.map fun l => List.replicate l marker
+      let total := lens.foldl (· + ·) 0
+      let r := fsRead iovmax off bufs o (List.range total)
+      -- per buffer: how many bytes were filled; and whether the filled bytes are 0,1,2,… in order
+      let fill := r.bufs.map fun b => (b.filter (· ≠ marker)).length
+      let got := r.bufs.flatten.filter (· ≠ marker)
+      let inorder := decide (got = List.range got.length) && decide (r.bufs.map (fun b => (b.takeWhile (· ≠ marker)).length) = fill)
+      (iovmax, r.calls.map (showCall · false) ++ [s!"result {r.result} fill={rle fill} inorder={if inorder then 1 else 0}"])
+    | _, _, _ => (iovmax, ["bad-op"])
+  | "buf_offset" :: args =>
+    match (kv "size" args).bind String.toNat?, (kv "bufs" args).bind parseLens with
+    | some size, some lens =>
+      let r := bufOffset (mkBufs lens 0) size
+      let descr := (r.2.zip (prefixStarts lens 0)).map fun (b, s0) =>
+        -- base moved by (original length − new length); print new base offset and new length
+        s!"{b.headD s0}+{b.length}"
+      (iovmax, [s!"offset {r.1} bufs={" ".intercalate descr}"])
+    | _, _ => (iovmax, ["bad-op"])
+  | "work" :: args =>
+    match (kv "retry" args).bind String.toNat?, (kv "outcomes" args).bind parseOutcomes with
+    | some rt, some os =>
+      let r := workLoop (rt ≠ 0) os
+      (iovmax, [s!"result {r.1} calls={r.2}"])
+    | _, _ => (iovmax, ["bad-op"])
+  | _ => (iovmax, ["bad-op"])
+where
+  prefixStarts : List Nat → Nat → List Nat
+    | [], _ => []
+    | l :: ls, s => s :: prefixStarts ls (s + l)
 
 /-- (mode name, action).  `uvdriver <mode>` runs the action (normally `runLines init step`). -/
-def modes : List (String × IO Unit) := []
+def modes : List (String × IO Unit) := [("fsbuf", runLines 1024 step)]
 
 end Drivers.C11
